@@ -7,7 +7,7 @@ assignment sign), keeps those that still pass the repository's own test-suite ("
 the existing tests"), and runs the quick tier of the checks against each until one of them reports a violation.
 Survivors are either equivalent mutants or gaps; each one is looked at by hand (notes/mutsweep.md).
 
-usage: tools/mutsweep.py [--n 200] [--seed 1] [--files cauchy,subspacemin,...] [--jobs 14] [--out notes/mutsweep.json]
+usage: tools/mutsweep.py [--n 200] [--skip 0] [--seed 1] [--files cauchy,subspacemin,...] [--jobs 14] [--out notes/mutsweep.json]
 Scratch copies live under a temp dir and are removed.  /repo itself is never touched.
 """
 import ast, copy, json, os, random, shutil, subprocess, sys, tempfile, time
@@ -217,7 +217,8 @@ def main():
         sites += [(f, mid, kind, ln) for mid, kind, ln in s.sites]
     print(f"{len(sites)} mutation sites in {files}", flush=True)
     rng.shuffle(sites)
-    chosen = sites[:n]
+    skip = int(opt("--skip", "0"))  # continue a sweep: same shuffle, leave out the first `skip` sites
+    chosen = sites[skip:skip + n]
     scratch = tempfile.mkdtemp(prefix="vf_mut_")
     env = dict(os.environ, VERIF_EVIDENCE_DIR=os.path.join(scratch, "ev"), VERIF_REPLAY_OUT=os.path.join(scratch, "rp"))
     results = []
